@@ -14,6 +14,7 @@ package parse
 //@ func (*Parse).parseErr
 //@   maypanic
 //@   ensures false
+//@   termination [C16]
 //
 //@ func (*Parse).next
 //@   requires parseOK(p)
@@ -46,6 +47,7 @@ package parse
 //@ func (*Parse).makeUnsigned
 //@   maypanic
 //@   modifies utype.Unsigned
+//@   termination [C16]
 //
 // parseType: recursion measure (lexM, current token is not Eof): a recursive call is made only after
 // the cursor has moved, or (after `unsigned`) onto the next token, which ends the recursion if it is Eof.
